@@ -18,6 +18,7 @@ INVARIANT ScoreRange
 INVARIANT ScorePerfect
 INVARIANT ErrNonNegative
 INVARIANT ZeroOnPerfect
+INVARIANT ZeroOnlyIfCovered
 INVARIANT StrategySides
 INVARIANT MatchIsNearest
 PROPERTY Terminates
